@@ -105,6 +105,8 @@ def _one(args):
             inst = hermitian.gen_instance(rng, d=d, k=k, N=N, vtype=vtype, corner=corner, **kw)
         except Regenerate:
             continue
+        if all(hermitian.epair(e) == (0, 0) for e in inst["E"]):
+            continue     # H_0 = 0 is refused up front by the library (ValueError): not an accepted input
         # every other numpy / sparse instance presents integer-valued terms (H_0 = np.diag of ints) in int64
         inst["int_dtype"] = vtype in ("numpy", "sparse") and (idx // len(VTYPES)) % 2 == 0
         desc = hermitian.describe(inst)
@@ -222,6 +224,9 @@ def run(pid, tier, seed, replay=None):
                 stats["crashes"] += 1
                 if len(crash_examples) < 3:
                     crash_examples.append(dict(instance=it[3], error=it[2][:400]))
+                # an exception while evaluating an ACCEPTED well-posed input falsifies C01 (reported there only)
+                if pid == "C01":
+                    violations.append(dict(kind="crash", detail=it[2][:600], instance=it[3]))
             elif kind in ("nonfinite", "notrepr"):
                 # a non-finite or non-representable value returned for a well-posed
                 # input falsifies C01 (the identity cannot hold) -- reported there only
